@@ -88,6 +88,7 @@ class Probes:
     def __init__(self):
         self.mon = sys.monitoring
         self.by_code = {}  # code -> {line: [callbacks]}
+        self.starts = {}  # code -> [callbacks at function entry]
         self.active = False
         self.status = {}
 
@@ -98,7 +99,13 @@ class Probes:
             except ValueError:
                 pass
             self.mon.register_callback(self.TOOL, self.mon.events.LINE, self._on_line)
+            self.mon.register_callback(self.TOOL, self.mon.events.PY_START, self._on_start)
             self.active = True
+
+    def _on_start(self, code, offset):
+        for cb in self.starts.get(code, ()):
+            cb(sys._getframe(1))
+        return None
 
     def _on_line(self, code, line):
         cbs = self.by_code.get(code)
@@ -141,10 +148,13 @@ class Probes:
 
         return self.at_text(func, text, cb, name, occurrence)
 
-    def every_line(self, func, cb, name):
+    def every_line(self, func, cb, name, on_start=None):
         func = inspect.unwrap(func)
         code = self._watch(func)
         self.by_code[code].setdefault(0, []).append(cb)
+        if on_start is not None:
+            self.starts.setdefault(code, []).append(on_start)
+            self.mon.set_local_events(self.TOOL, code, self.mon.events.LINE | self.mon.events.PY_START)
         self.status[name] = "attached"
         return True
 
